@@ -17,7 +17,7 @@ for length 258, HLIT/HDIST/HCLEN slack, code 16 after a zero run, empty blocks, 
 compressors and mutations that still parse; enumerated: every (length, distance, 258-coding) token under the fixed \
 code and seeded dynamic codes, all final-padding patterns at every bit offset, all stored-block padding patterns, every dynamic header size HLIT 257..288 x HDIST 1..32. \
 Oracle (hook parse_and_rewrite = parser followed directly by the block writer): rewritten bytes == D[..consumed], \
-consumed <= |D|, no panic. Non-trivial = at least one block parsed; distinct = hash of D[..consumed].",
+consumed <= |D|, no panic; if the hook fails although the parser alone and zlib's inflate both accept D (same consumed length), the writer refused a well-formed stream: violation. Non-trivial = at least one block parsed; distinct = hash of D[..consumed].",
     assumptions: &[
         "hook parse_and_rewrite calls parse_deflate, DeflateWriter::encode_block per block and flush_with_padding exactly as process.rs does",
     ],
@@ -42,6 +42,22 @@ pub fn check(data: &[u8], ctx: &mut Ctx, labels: &[String]) -> Result<(), Failur
     match r {
         Err(c) => Err(panic_failure("C07", "parse_and_rewrite", &c)),
         Ok(Err(e)) => {
+            // which stage failed? The parser alone decides whether the stream is in the domain;
+            // an error of the WRITER on a stream the parser accepted and that the reference
+            // inflater accepts too (well-formed by an independent judge) breaks the identity.
+            if let Ok(Ok(sum)) = lib_parse(data) {
+                let well_formed = matches!(crate::gen_comp::zlib_inflate_raw(data, 64 << 20), Some(ref z) if z.consumed == sum.consumed);
+                if well_formed {
+                    return Err(Failure::new(
+                        "C07",
+                        "rewrite-err",
+                        exit_code_name(e.code),
+                        format!("the parser and zlib accept the stream ({} bytes consumed) but writing the parsed blocks back fails: {}", sum.consumed, e.msg),
+                    ));
+                }
+                ctx.class("parse:Ok,write:Err(zlib-rejects-the-stream)");
+                return Ok(());
+            }
             ctx.class(&format!("parse:Err:{}", exit_code_name(e.code)));
             Ok(())
         }
